@@ -822,5 +822,34 @@ def daemonKey (P : PemCodec) (gen : Option Bytes) (writeOk : Bool) (fs : FsState
   | .err => (.err, fs)
   | .panic => (.panic, fs)
 
+/-! ### one path, many loads (wave 4: history independence)
+
+`OpenOrWritePrivKey` keeps nothing between calls: no package-level state, no cache. A process that
+loads the same path again and again, while the environment replaces what is at the path in between,
+is therefore a plain iteration of `openOrWrite`. -/
+
+/-- One load in a long-running process: what the environment did to the path since the previous
+load (`env`: previous state of the path ↦ state at the moment of this load), the key the random
+generator would yield and whether a write would succeed. -/
+structure LoadStep where
+  gen : Option Bytes
+  writeOk : Bool
+  env : FsState → FsState
+
+/-- The path after a load that found it in state `fs`. -/
+def pathAfter (fs : FsState) : Res (KeyErr × FsState) → FsState
+  | .ok (_, fs') => fs'
+  | _ => fs
+
+/-- The state of the path after the loads `history`, starting from `fs`. -/
+def sessionState (P : PemCodec) : FsState → List LoadStep → FsState
+  | fs, [] => fs
+  | fs, s :: rest =>
+    sessionState P (pathAfter (s.env fs) (openOrWrite P s.gen s.writeOk (s.env fs))) rest
+
+/-- The outcome of the load `s` made after the loads `history` of the same path in the same process. -/
+def loadAfter (P : PemCodec) (fs : FsState) (history : List LoadStep) (s : LoadStep) : Res (KeyErr × FsState) :=
+  openOrWrite P s.gen s.writeOk (s.env (sessionState P fs history))
+
 end Config
 end Bifrost
